@@ -382,6 +382,12 @@ def run_poly(c):
                 ck.check(bool(np.all(cc)), site + ":returned-point-in-polygon")
         return ck.result()
     compare(ck, r, exp, site + (":hit" if exp else ":miss"), 1e-6)
+    if c["other"] == "segment":
+        r2, f = call(site + ":swapped", other.intersect, poly)
+        if f:
+            ck.add(f)
+        else:
+            compare(ck, list(r2), exp, site + ":swapped" + (":hit" if exp else ":miss"), 1e-6)
     return ck.result()
 
 
@@ -504,6 +510,13 @@ def run_cub(c):
             if lo <= t <= hi:
                 exp.append(world([a + t * b for a, b in zip(p, d)]))
     compare(ck, r, exp, site + (f":{len(exp)}-points"), 1e-6)
+    if c["other"] == "segment":
+        # the same question asked of the segment: segment.intersect(cuboid)
+        r2, f = call(site + ":swapped", other.intersect, cub)
+        if f:
+            ck.add(f)
+        else:
+            compare(ck, list(r2), exp, site + f":swapped:{len(exp)}-points", 1e-6)
     return ck.result()
 
 
